@@ -10,6 +10,8 @@ first row of a simulation and the derived-parameter/-variable classification.
 
 from __future__ import annotations
 
+import copy
+
 import os
 
 from mon import contracts as ct
@@ -168,6 +170,35 @@ def run_case(case: dict) -> dict:
             # sensitivity: would a recomputation at (st,t) have given something else?
             sensitive = sensitive or _recompute_differs(ref, st, t)
         counters["states queried"] = 3
+        # the declared initial state changes (plain number for one variable) after everything was resolved and queried once:
+        # "computed once, at time zero from the declared initial state" now means the new declaration
+        plain = [c for c in spec["components"] if c["kind"] == "variable" and "value" in c]
+        if plain and rng.random() < 0.5:
+            tgt = rng.choice(plain)["name"]
+            newv = round(rng.uniform(3.0, 9.0), 3)
+            spec2 = copy.deepcopy(spec)
+            for c in spec2["components"]:
+                if c["kind"] == "variable" and c["name"] == tgt:
+                    c["value"] = newv
+            ref2 = rm.Ref(spec2)
+            ct.register(model, ref2)
+            if rng.random() < 0.5:
+                model.update_variable(tgt, newv)
+            else:
+                model.update_variables({tgt: newv})
+            ic2, exp2 = dict(model.get_initial_conditions()), ref2.initial_conditions()
+            if any(not core.close(ic2[k], exp2[k]) for k in exp2):
+                viols.append(core.viol("after re-declaring an initial value, initial conditions differ from t=0 resolution of the new declaration", None, variable=tgt, value=newv, got=ic2, expected=exp2, spec=spec))
+            a2 = model.get_args()  # contract compares every name with ref2 at t=0
+            for k, v in ref2.parameter_values().items():
+                if not core.close(a2[k], v):
+                    viols.append(core.viol("after re-declaring an initial value, an assignment-defined parameter keeps its old value", None, variable=tgt, value=newv, name=k, got=float(a2[k]), expected=v, spec=spec))
+            st = rm.random_state(ref2, rng)
+            model.get_args(st, 1.5)
+            model.get_right_hand_side(st, 1.5)
+            exp_ic, ref = exp2, ref2
+            sim = Simulator(model)
+            counters["initial value re-declared after resolution"] = 1
         # simulations start from the resolved initial conditions by default
         try:
             with core.time_limit(5):
